@@ -28,7 +28,7 @@ T_SignerSets == {{}, {"ALPHA"}, {"ALPHA", "CMT"}, {"CMT"}, {"X"}}
 F_Owners  == {"o1"}
 F_Cids    == {"c1"}
 F_COwner  == [c \in F_Cids |-> "o1"]
-FT_Cids   == {"c1", "c2"}
+FT_Cids   == {"c1"}
 FT_COwner == [c \in FT_Cids |-> "o1"]
 F_Names   == {"n1"}
 F_Variants == {"a"}
